@@ -800,4 +800,35 @@ def runEff (allRules : List RuleRow) (lint : Bool) (eff : EffConfig) (excludeImp
     | .ok rc =>
       report (mkConfig lint rc eff.allowCommentIgnores eff.ignoreUnstablePackages excludeImports) img
 
+/-! ## lint rule handlers never see import files
+
+    Every builtin lint handler is built on `bufcheckserverutil.NewLintFilesRuleHandler`, which
+    hands the rule only the files with `IsImport() = false` (package / directory grouping, the
+    per-file and per-element wrappers all sit on top of it); the two handlers that receive all
+    files (`PACKAGE_NO_IMPORT_CYCLE`, `PROTOVALIDATE`) skip import files themselves when they
+    report.  The handlers stay a parameter of this model (their single-rule annotation sets are
+    measured), but this one structural fact is modelled: whatever a lint handler is measured to
+    emit, only annotations located outside the import files can come from it.  Breaking handlers
+    do not read the flag (only `ignoreFileLocation` does, under exclude-imports). -/
+
+/-- The annotation's file location is not in an import file of the image (no location: true). -/
+def locNotImport (img : Image) (a : Annot) : Bool :=
+  match a.loc with
+  | some l => !(fileAt img.files l.file).isImport
+  | none => true
+
+/-- The image as the rule handlers of the given type can annotate it. -/
+def handlerView (lint : Bool) (img : Image) : Image :=
+  if lint then { img with annots := img.annots.filter (locNotImport img) } else img
+
+/-- `Client.Lint` / `Client.Breaking` as the driver runs it on `check` lines. -/
+def runCheckH (allRules : List RuleRow) (lint validated : Bool) (c : CheckConfig)
+    (allowCommentIgnores ignoreUnstable excludeImports : Bool) (img : Image) : Except RErr (List FileAnnot) :=
+  runCheck allRules lint validated c allowCommentIgnores ignoreUnstable excludeImports (handlerView lint img)
+
+/-- … and on `ycheck` lines. -/
+def runEffH (allRules : List RuleRow) (lint : Bool) (eff : EffConfig) (excludeImports : Bool) (img : Image) :
+    Except RErr (List FileAnnot) :=
+  runEff allRules lint eff excludeImports (handlerView lint img)
+
 end BufModel.Rules
